@@ -53,6 +53,15 @@ def run(ctx):
         else:
             for n in core.theorem_names(GEN_PROPS):
                 ctx.theorems.append({"name": n, "axioms": None, "ok": False})
+        # Loop-level translator tie (extension session): the 15 division functions of xmath/num with their loops
+        # (divmod128bin, both correction loops of divmod128by64, ...) regenerated as fuel recursions on top of SSA_Num;
+        # divmod128bin and divmod128by64 are proved EQUAL to the model kernels (Props/C01GenLoops.lean), the others are
+        # emitted untied (they run, nothing depends on them).  ADVISORY: recorded in coverage.numloops_advisory, decides
+        # nothing (a structural loop tie also breaks under a behaviour-preserving restructuring of the loops).
+        # No `deps` here: this block already holds c01gen.lock.
+        from vlib import gentie
+        gentie.run(ctx, target="numloops", generated="SSA_NumLoops.lean", module="Props.C01GenLoops", key="numloops",
+                   namespace="C01GenLoops", advisory=True)
         if ctx.repo != "/repo" and os.path.isdir("/repo/xmath/num"):
             # leave the tracked file as generated from the reference tree (it is committed, like Generated/Facts.lean)
             _ssagen(None, "/repo")
